@@ -13,6 +13,14 @@ from .jsonref import canon, roundtrip, type_exact_equal, shares_mutable
 DOC_ERRS = ('FileNotFoundError', 'IsADirectoryError', 'NotADirectoryError')
 
 
+# classes generated user code may raise besides UserBoom: the library's own vocabulary of failures
+# (a user exception is an opaque object, whatever its class happens to coincide with)
+USER_EXC = {n: getattr(__import__('builtins'), n) for n in (
+    'FileNotFoundError', 'IsADirectoryError', 'NotADirectoryError', 'PermissionError', 'FileExistsError',
+    'OSError', 'KeyError', 'ValueError', 'RuntimeError', 'TypeError', 'LookupError',
+    'StopIteration', 'EOFError', 'UnicodeError', 'RecursionError', 'NotImplementedError')}
+
+
 class UserBoom(Exception):
     """exception raised by generated user code"""
 
@@ -252,6 +260,7 @@ def do_query(ctx, b, kind, r, mode, sp=None):
                 ctx.issue('bool_shape', kind=kind, path=r, got=repr(v)[:40])
         return ['ok', v]
     except OSError as e:
+        ctx.tls.qexc = e
         if kind in ('read_text', 'read_binary', 'declare_read') and any(
                 len(os.fsencode(c)) > 255 for c in r.split('/')):
             # the OS reports ENAMETOOLONG for such names; which OSError subclass
@@ -303,6 +312,12 @@ def run_body(ctx, fr, body, acc):
             mode = s[3] if len(s) > 3 else 'M'
             ctx.point('before:' + kind)
             ans = do_query(ctx, fr.b, kind, r, mode, s[4] if len(s) > 4 else None)
+            if len(s) > 5 and s[5] == 'prop' and ans[0] == 'err' and ans[1] in DOC_ERRS:
+                # user code that does not catch the error of its own query: the very object
+                # the builder raised leaves the function
+                with ctx.lock:
+                    ctx.qlog.append((fr.where, kind, r, mode, ans))
+                raise ctx.tls.qexc
             with ctx.lock:
                 ctx.qlog.append((fr.where, kind, r, mode, ans))
             acc = H(acc, 'q', kind, r, mode, ans)
@@ -322,7 +337,8 @@ def run_body(ctx, fr, body, acc):
             acc = H(acc, 'sb', call_sb(ctx, fr, s))
             ctx.point('after:sb')
         elif op == 'raise':
-            e = UserBoom(s[1] if len(s) > 1 else 'boom')
+            cls = USER_EXC.get(s[2]) if len(s) > 2 else None
+            e = UserBoom(s[1] if len(s) > 1 else 'boom') if cls is None else cls(s[1])
             with ctx.lock:
                 ctx.booms.append(e)
             raise e
@@ -455,6 +471,7 @@ def call_bf(ctx, fr, s):
     sent_args = copy.deepcopy(o.get('args', []))
     sent_kwargs = copy.deepcopy(o.get('kwargs', {}))
     target_abs = ctx.ap(r)
+    fn_raised = []
 
     def fn(b2, filename, *args, **kwargs):
         key = ('bf', filename)
@@ -475,6 +492,9 @@ def call_bf(ctx, fr, s):
                 version_class(ctx, fname))
         try:
             acc = run_body(ctx, fr2, fdef['body'], acc)
+        except BaseException as u:
+            fn_raised.append(u)
+            raise
         finally:
             ctx.mark('fret', fr2.where)
         ctx.point('exit:' + fname)
@@ -492,7 +512,7 @@ def call_bf(ctx, fr, s):
     except Exception as e:
         ctx.mark('done', ckey)
         ctx.pop_call(ckey, e)
-        note_exception(ctx, e)
+        note_exception(ctx, e, fn_raised)
         if ctx.real:
             peek_after_bf(ctx, target_abs, False, e)
         if not o.get('catch') or isinstance(e, Crash):
@@ -538,12 +558,16 @@ def peek_after_bf(ctx, target, ok, exc):
                           os.path.lexists(target)))
 
 
-def note_exception(ctx, e):
+def note_exception(ctx, e, fn_raised=()):
     if isinstance(e, UserBoom) and ctx.real:
         with ctx.lock:
             known = any(e is o for o in ctx.booms)
         if not known:
             ctx.issue('exception_identity', tag=e.tag)
+    if ctx.real and fn_raised and e is not fn_raised[-1] and not ctx.hooks.get('faults_active'):
+        # whatever left the user's function (its own exception of any class, the error of a query
+        # it did not catch, a rejection) is what the build_file/subbuild call must raise: the same object
+        ctx.issue('exception_identity', raised=type(fn_raised[-1]).__name__, got=type(e).__name__)
 
 
 def call_sb(ctx, fr, s):
@@ -551,6 +575,7 @@ def call_sb(ctx, fr, s):
     fdef = ctx.program['funcs'][fname]
     sent_args = copy.deepcopy(o.get('args', []))
     sent_kwargs = copy.deepcopy(o.get('kwargs', {}))
+    fn_raised = []
 
     def fn(b2, *args, **kwargs):
         key = ('sb', canon([fname, list(args), kwargs]))
@@ -563,6 +588,9 @@ def call_sb(ctx, fr, s):
         acc = H('sb', fname, canon_str(list(args)), canon_str(kwargs), version_class(ctx, fname))
         try:
             acc = run_body(ctx, fr2, fdef['body'], acc)
+        except BaseException as u:
+            fn_raised.append(u)
+            raise
         finally:
             ctx.mark('fret', fr2.where)
         ctx.point('exit:' + fname)
@@ -578,7 +606,7 @@ def call_sb(ctx, fr, s):
     except Exception as e:
         ctx.mark('done', ckey)
         ctx.pop_call(ckey, e)
-        note_exception(ctx, e)
+        note_exception(ctx, e, fn_raised)
         if not o.get('catch') or isinstance(e, Crash):
             raise
         return ['exc', errname(e)]
